@@ -81,6 +81,24 @@ def prf_sums(rep, r, n):
                               f'{name} (fwhm {fw}, {fw2}; centre {(x0, y0)}) sums to {tot} over the pixel grid, flux is {flux}',
                               {'model': name, 'fwhm': [fw, fw2], 'x_0': x0, 'y_0': y0, 'flux': flux})
                 continue
+        # a wide, elongated, rotated PRF agrees with the rotated PSF of the same parameters sampled on the pixel grid: same major-axis
+        # direction (counter-clockwise from +x, as documented, to 0.5 deg) and pixel values within 6 % of the peak
+        from photutils.psf import GaussianPSF
+        th_r = r.choice([30.0, 40.0, 120.0, -25.0, r.uniform(0, 180)])
+        wx, wy = r.uniform(7.0, 12.0), r.uniform(3.0, 4.5)
+        gy_, gx_ = np.mgrid[-25:26, -25:26]
+        prf = GaussianPRF(flux=flux, x_0=0.3, y_0=-0.2, x_fwhm=wx, y_fwhm=wy, theta=th_r)(gx_, gy_)
+        psf = GaussianPSF(flux=flux, x_0=0.3, y_0=-0.2, x_fwhm=wx, y_fwhm=wy, theta=th_r)(gx_, gy_)
+        rep.case(('prf-vs-psf', wx, wy, th_r), True, kind='prf-vs-psf:rotated')
+        rep.probe_only += 1
+        m_ = prf / prf.sum()
+        cx_, cy_ = (m_ * gx_).sum(), (m_ * gy_).sum()
+        ang = 0.5 * math.degrees(math.atan2(2 * (m_ * (gx_ - cx_) * (gy_ - cy_)).sum(), (m_ * (gx_ - cx_) ** 2).sum() - (m_ * (gy_ - cy_) ** 2).sum()))
+        # (sampling the PSF at pixel centres instead of integrating it costs up to ~3 % of the peak for these widths)
+        if float(np.abs(prf - psf).max()) > 0.06 * float(psf.max()) or abs(((ang - th_r) + 90.0) % 180.0 - 90.0) > 0.5:
+            rep.violation('prf-ne-psf:rotated', f'GaussianPRF(x_fwhm={wx:.2f}, y_fwhm={wy:.2f}, theta={th_r:.2f}) differs from GaussianPSF with the same parameters by '
+                          f'{float(np.abs(prf - psf).max()) / float(psf.max()):.3f} of the peak; its major axis lies at {ang:.2f} deg',
+                          {'x_fwhm': wx, 'y_fwhm': wy, 'theta': th_r})
         # circular == elliptical with equal widths at any rotation; sigma == fwhm forms; linear in flux
         a = CircularGaussianPRF(flux=flux, x_0=x0, y_0=y0, fwhm=fw)(xx, yy)
         b = GaussianPRF(flux=flux, x_0=x0, y_0=y0, x_fwhm=fw, y_fwhm=fw, theta=0.0)(xx, yy)
